@@ -293,9 +293,9 @@ func checkC14(res *vh.Result, kc *kinCache, it *built, si *stepInfo, ob *rt.Obs,
 		res.Count(fmt.Sprintf("request_server=%v_schema=%v", serverAccepts, reqV.OK))
 		switch {
 		case serverAccepts && !reqV.OK:
-			failSig(res, classifyC14(si, ob, true, reqV.Err), fmt.Sprintf("the server accepted a request the documented schemas forbid (%s at %s): %s", si.Desc, si.Site, reqV.Err), in)
+			failSig(res, classifyC14(it, si, ob, true, reqV.Err), fmt.Sprintf("the server accepted a request the documented schemas forbid (%s at %s): %s", si.Desc, si.Site, reqV.Err), in)
 		case !serverAccepts && reqV.OK:
-			failSig(res, classifyC14(si, ob, false, ""), fmt.Sprintf("the documented schemas allow a request the server rejects with %d %s (%s at %s)", status(ob), errName(ob), si.Desc, si.Site), in)
+			failSig(res, classifyC14(it, si, ob, false, ""), fmt.Sprintf("the documented schemas allow a request the server rejects with %d %s (%s at %s)", status(ob), errName(ob), si.Desc, si.Site), in)
 		default:
 			res.Sample(map[string]any{"method": si.Method, "mutation": si.Desc, "server_accepts": serverAccepts, "schema_accepts": reqV.OK, "wire": ob.Req}, 3)
 		}
@@ -433,9 +433,22 @@ func siteUnderNonStringKeyMap(si *stepInfo) bool {
 	return false
 }
 
+// sharedSchema: the operation's request body (or a type nested in it) is documented by a
+// component generated for ANOTHER type (openapi's schemafier shares one schema between
+// types whose structure is equal, validations not considered).
+func sharedSchema(it *built, si *stepInfo) bool {
+	if it == nil || it.ex == nil {
+		return false
+	}
+	return it.ex.shared[si.Service+"/"+si.Method]
+}
+
 // classifyC14 names the class of a disagreement between server and schema.
-func classifyC14(si *stepInfo, ob *rt.Obs, serverAccepts bool, kinErr string) string {
+func classifyC14(it *built, si *stepInfo, ob *rt.Obs, serverAccepts bool, kinErr string) string {
 	d := si.Design
+	if sharedSchema(it, si) && !si.DecodeFail && len(si.Expected) <= 1 {
+		return "schema-shared-by-structurally-equal-types"
+	}
 	if serverAccepts {
 		if c := schemaErrClass(si, si.M.Payload, kinErr); c != "" {
 			return c
